@@ -87,19 +87,22 @@ def gen_cubes(tier, seed):
         cubes.append((pixels, nd, st, sp, api, dtype, "+".join(kinds)))
     # low-variance calibration windows with later observations at many ratios of the mean: finite indices far
     # beyond the int16 range (tail probabilities between 1e-308 and 1e-235) as well as exact 0 / 1
-    for _ in range(8 if quick else 80):
-        nd = rng.choice([-9999, -32768])
-        cv = rng.choice([0.01, 0.03, 0.1])
-        T = 36
-        sp = 24
-        base = [float(round(1000 * (1 + rs.normal(0, cv)))) for _ in range(T)]
-        pixels = []
-        for ratio in rng.sample([0.1, 0.2, 0.25, 0.3, 0.4, 0.5, 0.6, 0.7, 0.8, 0.9, 1.1, 1.3, 1.6, 2.0, 3.0], 4):
-            xs = list(base)
-            xs[rng.randrange(sp, T)] = float(round(1000 * ratio))
-            pixels.append(xs)
-        api = rng.choice(["yxt", "grp", "grp", "accessor"])
-        cubes.append((pixels, nd, 0, sp, api, "int16", f"lowvar-sweep cv={cv}"))
+    # (systematic, not sampled: every variation coefficient x every entry point x the whole ladder of ratios - the band of
+    # finite-but-enormous indices is narrow and sits at a different ratio for every cv)
+    ladder = [0.1, 0.2, 0.25, 0.3, 0.35, 0.4, 0.5, 0.6, 0.7, 0.8, 0.9, 1.1, 1.3, 1.6, 2.0, 3.0]
+    for rep_ in range(1 if quick else 6):
+        for cv in (0.01, 0.03, 0.1):
+            for api in ("yxt", "grp", "accessor"):
+                nd = rng.choice([-9999, -32768])
+                T = 36
+                sp = 24
+                base = [float(round(1000 * (1 + rs.normal(0, cv)))) for _ in range(T)]
+                pixels = []
+                for ratio in ladder:
+                    xs = list(base)
+                    xs[rng.randrange(sp, T)] = float(round(1000 * ratio))
+                    pixels.append(xs)
+                cubes.append((pixels, nd, 0, sp, api, "int16", f"lowvar-sweep cv={cv}"))
     # other integer widths through the accessor (always present, not left to chance): unsigned 16-bit rainfall with wet outliers
     # above the int16 range, 32-bit totals, 8-bit counts
     for dtype, hi, outl in (("uint16", 400, [32768, 40000, 55537, 60000, 65000]), ("int32", 400, [40000, 70000, 2_000_000]), ("uint8", 60, [200, 250, 254])):
